@@ -72,7 +72,7 @@ type Exec struct {
 	FaultHit  bool
 	HitAddr   []byte
 	HitKey    string
-	HitReads  int // how often the failed key was read during the call
+	HitReads  int    // how often the failed key was read during the call
 	InputMut  string // non-empty: the call modified its input (C13)
 	Emitted   []*Msg
 	Transfers []spec.OutTransfer
@@ -187,6 +187,7 @@ func (nd *Node) Execute(m *Msg, faultKind, faultK int) *Exec {
 	snap := nd.Store.JournalLen()
 	nd.Store.PauseLookupSoft = fn != vmcommon.BuiltInFunctionESDTPause && fn != vmcommon.BuiltInFunctionESDTUnPause
 	nd.Faults.Reset(faultKind, faultK)
+	nd.Faults.Alt = nd.FaultAlt
 
 	a0 := heapAllocs()
 	func() {
@@ -238,6 +239,33 @@ func (nd *Node) Execute(m *Msg, faultKind, faultK int) *Exec {
 	}
 	ex.Post = spec.ShardState(nd.Store.Accts).Clone()
 	return ex
+}
+
+// ConsumeOutput does what the owner of a returned VMOutput may do with it: the library's own
+// OutputAccount.MergeOutputAccounts adds into the receiver's numbers in place, so a host that keeps a
+// returned account as its accumulator changes every number object the output holds. The output
+// belongs to the caller; nothing the library keeps may be reachable through it (C13).
+func ConsumeOutput(out *vmcommon.VMOutput) {
+	if out == nil {
+		return
+	}
+	bump := big.NewInt(1_000_000_007)
+	for _, oa := range out.OutputAccounts {
+		if oa == nil {
+			continue
+		}
+		if oa.Balance != nil {
+			oa.Balance.Add(oa.Balance, bump)
+		}
+		if oa.BalanceDelta != nil {
+			oa.BalanceDelta.Add(oa.BalanceDelta, bump)
+		}
+		for i := range oa.OutputTransfers {
+			if v := oa.OutputTransfers[i].Value; v != nil {
+				v.Add(v, bump)
+			}
+		}
+	}
 }
 
 // FlattenTransfers lists output transfers in a canonical order (by destination address, then index).
